@@ -351,3 +351,88 @@ EXTRA_CHECKS["C10"] = _c10
 EXTRA_CHECKS["C01"] = _with_order(EXTRA_CHECKS.get("C01"))
 EXTRA_CHECKS["C06"] = _with_order(EXTRA_CHECKS.get("C06"))
 EXTRA_CHECKS["C04"] = _with_order(EXTRA_CHECKS.get("C04"))
+
+
+# ---- C20 "producing plots or exports never modifies the result": every function of the plotting, results and cascade modules is
+# scanned on each run (new code included) for in-place updates of arrays it merely borrowed from the result
+def _replay_reports_leave_result():
+    """replay END TO END on the tb_simple demo: snapshot every array of the finished run, produce the usual reports (PlotData with and
+    without aggregation, flows, programs, raw export, cascade values and data, coverage), and compare"""
+    import numpy as np
+
+    at, _ = _udt()
+    import matplotlib
+
+    matplotlib.use("Agg")
+    P = at.demo("tb_simple", do_run=False)
+    res = P.run_sim(P.parsets[0], P.progsets[0], at.ProgramInstructions(start_year=2018))
+
+    def snapshot():
+        snap = {}
+        for pop in res.model.pops:
+            for group in (pop.comps, pop.characs, pop.pars, pop.links):
+                for v in group:
+                    if v.vals is not None:
+                        snap[(pop.name,) + tuple(v.id)] = np.array(v.vals, dtype=float).copy()
+        return snap
+
+    before = snapshot()
+    done, failed = [], []
+    pops = [p.name for p in res.model.pops]
+    comp = res.model.pops[0].comps[0].name
+    link_par = [p.name for p in res.model.pops[0].pars if p.links][0]
+    reports = [
+        ("PlotData single output", lambda: at.PlotData(res, outputs=comp, pops=pops[0])),
+        ("PlotData summed over populations", lambda: at.PlotData(res, outputs=comp, pops={"total": pops}, pop_aggregation="sum")),
+        ("PlotData weighted output aggregate", lambda: at.PlotData(res, outputs={"agg": [c.name for c in res.model.pops[0].comps[:2]]}, pops=pops[0], output_aggregation="weighted")),
+        ("PlotData flow", lambda: at.PlotData(res, outputs=link_par + ":flow", pops=pops[0])),
+        ("PlotData accumulate", lambda: at.PlotData(res, outputs=comp, pops=pops[0], accumulate="sum")),
+        ("PlotData time aggregate", lambda: at.PlotData(res, outputs=link_par + ":flow", pops=pops[0], t_bins=5)),
+        ("PlotData.programs", lambda: at.PlotData.programs(res, quantity="coverage_fraction")),
+        ("export_raw", lambda: res.export_raw()),
+        ("get_coverage eligible", lambda: res.get_coverage("eligible")),
+        ("get_coverage number", lambda: res.get_coverage("number")),
+        ("get_equivalent_alloc", lambda: res.get_equivalent_alloc()),
+        ("cascade values", lambda: at.get_cascade_vals(res, cascade=0, pops=pops[0])),
+        ("cascade data", lambda: at.get_cascade_data(P.data, P.framework, cascade=0)),
+        ("cascade plot", lambda: at.plot_cascade(res, cascade=0, data=P.data)),
+    ]
+    for name, f in reports:
+        try:
+            f()
+            done.append(name)
+        except Exception as e:  # noqa -- a report that is not available in this sandbox is skipped, not judged
+            failed.append("%s (%s)" % (name, type(e).__name__))
+    after = snapshot()
+    changed = [k for k in before if not np.array_equal(before[k], after[k], equal_nan=True)]
+    pre = dict(project="tb_simple", reports_produced=done, reports_unavailable=failed)
+    if changed:
+        return dict(verdict="violates", detail="after producing the reports %d arrays of the result differ, e.g. %r" % (len(changed), changed[:3]), prestate=pre)
+    return dict(verdict="holds", detail="the %d arrays of the result are unchanged after %d reports" % (len(before), len(done)), prestate=pre)
+
+
+def _c20_reports(tier="quick", seed=0):
+    import ast
+
+    from pyvc import source
+
+    out, scanned = [], 0
+    for mod in ("plotting", "results", "cascade"):
+        m = source.load(mod)
+        names = list(m.functions.keys()) + ["%s.%s" % (c, f.name) for c, (node, _) in m.classes.items() for f in node.body if isinstance(f, ast.FunctionDef)]
+        for n in sorted(names):
+            q = "%s:%s" % (mod, n)
+            scanned += 1
+            for obs in (flow.no_inplace_update_of_borrowed_arrays(q), flow.no_mutation_through_alias(q)):
+                refuted = [o for o in obs if o["status"] != "proved"]
+                summary = [o for o in obs if o["status"] == "proved" and not o["name"].endswith(":0 sites") and not o["name"].endswith(":0 aliases")]
+                out += refuted + summary
+    out.append(dict(function="plotting, results, cascade (all functions)", name="report-functions-scanned:%d" % scanned, kind="structural", status="proved" if scanned > 50 else "refuted", seconds=0.0, backend="ast-analysis",
+                    note="every function of the three reporting modules was scanned for in-place updates of borrowed arrays and of aliases of object attributes"))
+    _attach(out, "inplace-on-borrowed", _replay_reports_leave_result)
+    _attach(out, "inplace-through-alias", _replay_reports_leave_result)
+    return out
+
+
+_c20_before_reports = EXTRA_CHECKS["C20"]
+EXTRA_CHECKS["C20"] = (lambda tier="quick", seed=0: _c20_before_reports(tier, seed) + _c20_reports(tier, seed))
